@@ -11,6 +11,12 @@ FieldNames == <<"X", "N", "S", "PID", "I", "L", "T", "K", "PictureID", "TL0PICID
 RECURSIVE FirstDiff(_, _, _)
 FirstDiff(a, b, i) == IF i > Len(FieldNames) THEN "" ELSE IF a[FieldNames[i]] # b[FieldNames[i]] THEN FieldNames[i] ELSE FirstDiff(a, b, i + 1)
 
+HugeReason(e) ==     \* one item of about 17 MB: the harness reports lengths and equality facts (the bytes do not travel)
+  IF e.res # "ok" THEN "huge_item_panic"
+  ELSE IF e.nfrags = 0 THEN "huge_item_no_packets"
+  ELSE IF e.maxlen > e.mtu THEN "huge_item_fragment_exceeds_mtu"
+  ELSE IF \E k \in 1..Len(e.facts) : ~e.facts[k] THEN "huge_item_not_reproduced"
+  ELSE ""
 DecodeReason(e) ==
   LET r == RefDecode(e.bytes) IN
   IF e.res = "panic" THEN "decode_panic"
@@ -47,6 +53,8 @@ Next ==
        ELSE IF st.poisoned THEN UNCHANGED st
        ELSE IF e.ev = "decode" THEN
             LET r == DecodeReason(e) IN (IF r = "" THEN TRUE ELSE Reject(e, r)) /\ UNCHANGED st
+       ELSE IF e.ev = "huge" THEN
+            LET r == HugeReason(e) IN (IF r = "" THEN TRUE ELSE Reject(e, r)) /\ UNCHANGED st
        ELSE IF e.ev = "payload" THEN
             LET toggled == st.started /\ e.pidon # st.pidon
                 id0 == IF st.started THEN st.id ELSE e.startid
